@@ -115,11 +115,15 @@ func checkState(o *obs, idx map[*token]idxInfo, reorgRan bool, f *findings) {
 		if !sameList(o.P[s], o.P2[s]) {
 			f.add("pending-vs-content", "Pending() of %s = [%s] but Content() pending = [%s]", S, tokNames(o.P2[s]), tokNames(o.P[s]))
 		}
-		for i, t := range o.P[s] {
-			switch {
-			case t.nonce < sn:
+		stale := false
+		for _, t := range o.P[s] {
+			if t.nonce < sn {
+				stale = true
 				f.add("stale-nonce-pending", "%s offered although the state nonce of %s is %d", t.name, S, sn)
-			case t.nonce != sn+uint64(i):
+			}
+		}
+		for i, t := range o.P[s] {
+			if !stale && t.nonce != sn+uint64(i) {
 				f.add("pending-gapfree", "pending of %s = [%s] is not the gap-free sequence from state nonce %d", S, tokNames(o.P[s]), sn)
 			}
 			if t.cost.Cmp(bal) > 0 {
@@ -145,7 +149,7 @@ func checkState(o *obs, idx map[*token]idxInfo, reorgRan bool, f *findings) {
 			}
 		}
 		want := sn + uint64(len(o.P[s]))
-		if o.nonce[s] != want {
+		if o.nonce[s] != want && !stale {
 			f.add("pending-nonce", "Nonce(%s) = %d, want state nonce %d + %d pending = %d", S, o.nonce[s], sn, len(o.P[s]), want)
 		}
 	}
@@ -181,6 +185,12 @@ func checkState(o *obs, idx map[*token]idxInfo, reorgRan bool, f *findings) {
 			f.add("status-vs-lists", "Status(%s) = %d, want %d", t.name, i.status, wantSt)
 		}
 	}
+	publicIndexQuiet := true
+	for _, x := range *f {
+		if x.oracle == "listed-not-indexed" || x.oracle == "indexed-not-listed" {
+			publicIndexQuiet = false
+		}
+	}
 	// lookup index and price heap (injected view)
 	if v := o.v; v != nil {
 		seen := map[*token]int{}
@@ -207,7 +217,9 @@ func checkState(o *obs, idx map[*token]idxInfo, reorgRan bool, f *findings) {
 				bad = true
 			}
 		}
-		if bad || len(seen) != len(content) {
+		if !publicIndexQuiet {
+			// the same fact was already reported from the public API
+		} else if bad || len(seen) != len(content) {
 			var names []*token
 			for _, t := range tokens {
 				if seen[t] > 0 {
@@ -215,8 +227,7 @@ func checkState(o *obs, idx map[*token]idxInfo, reorgRan bool, f *findings) {
 				}
 			}
 			f.add("lookup-vs-lists", "lookup index holds [%s] (+%d unknown) but the lists hold %s", tokNames(names), unknown, o.describe())
-		}
-		if v.AllSlots != o.slots() {
+		} else if v.AllSlots != o.slots() {
 			f.add("lookup-slots", "lookup slot counter %d, listed transactions occupy %d", v.AllSlots, o.slots())
 		}
 		heap := map[*token]bool{}
@@ -231,12 +242,6 @@ func checkState(o *obs, idx map[*token]idxInfo, reorgRan bool, f *findings) {
 			}
 			if remote[t] && t.price < o.gasPrice {
 				f.add("remote-below-gasprice", "remote transaction %s (price %d) kept under pool gas price %d", t.name, t.price, o.gasPrice)
-			}
-		}
-		for s := 0; s < NS; s++ {
-			want := uint64(o.cs.Nonce[s]) + uint64(len(o.P[s]))
-			if got := v.PendingNonces[addrs[s]]; got != want {
-				f.add("pending-nonce", "pendingNonces[%s] = %d, want %d", senderNames[s], got, want)
 			}
 		}
 	}
@@ -337,17 +342,17 @@ func reorgRuns(op *opDef, pre *obs) bool {
 // transition rules
 
 type transStats struct {
-	replAccepted, replRejected int
-	evictions                  int // transitions in which a limit removed something
-	poolFull                   int // submissions that met a full pool
-	localOverCap               int
+	replAccepted, replRejected    int
+	evictions                     int // transitions in which a limit removed something
+	poolFull                      int // submissions that met a full pool
+	localOverCap                  int
 	dropMined, dropFunds, dropGas int
-	dropPrice                  int
-	demotions                  int
-	journalNonEmpty            int
-	exactSetChecks             int
-	asyncMulti                 int // coalesced rounds in which two sections each had an accepted transaction
-	asyncResetDrop             int // coalesced rounds whose merged reset dropped a transaction
+	dropPrice                     int
+	demotions                     int
+	journalNonEmpty               int
+	exactSetChecks                int
+	asyncMulti                    int // coalesced rounds in which two sections each had an accepted transaction
+	asyncResetDrop                int // coalesced rounds whose merged reset dropped a transaction
 }
 
 func checkTransition(pre *obs, op *opDef, res opResult, post *obs, postIdx map[*token]idxInfo, f *findings, st *transStats) {
@@ -727,12 +732,7 @@ func classify(pre *obs, op *opDef) string {
 	case op.kind == opJournal:
 		return "op=journal"
 	case op.kind == opAsync:
-		for _, st := range op.steps {
-			if st.head != nil {
-				return fmt.Sprintf("op=async(%d sections,%s)", len(op.steps), classify(nil, st.head)[3:])
-			}
-		}
-		return fmt.Sprintf("op=async(%d sections)", len(op.steps))
+		return "op=async"
 	}
 	return "op=?"
 }
